@@ -502,7 +502,13 @@ def reachable_nodes(fi, depth=2):
   return nodes
 
 
-def exits_missing_call(fn, pred):
+def exits_missing(fn, spred):
+  """Like exits_missing_call, for a predicate on any node (a store, a statement): the normal exits of `fn` reachable without a
+  node satisfying spred having been executed."""
+  return exits_missing_call(fn, None, _node_pred=spred)
+
+
+def exits_missing_call(fn, pred, _node_pred=None):
   """Must-pass-through: the normal exits of `fn` (return statements and the end of the body) that can be reached without a call
   satisfying pred(call) having been evaluated.  Syntax-directed with the state "may not have called yet": both arms of a test,
   a loop body zero or more times, raise is no exit, handlers start from the state before the try.  Returns [exit node];
@@ -510,7 +516,11 @@ def exits_missing_call(fn, pred):
   missing = []
 
   def has(node):
-    return any(isinstance(c, ast.Call) and pred(c) for c in ast.walk(node)) if node is not None else False
+    if node is None:
+      return False
+    if _node_pred is not None:
+      return any(_node_pred(c) for c in ast.walk(node))
+    return any(isinstance(c, ast.Call) and pred(c) for c in ast.walk(node))
 
   def walk(stmts, nd):
     """nd: the call may not have happened yet.  Returns the same for the fall-through (None: no fall-through)."""
